@@ -125,6 +125,7 @@ theorem C07_reported_iff (L : Lawful ops) (decP : Bytes → Option P) (p : Prefi
       · obtain ⟨w, hw, h1, _⟩ := C07_complete L decP p v S a b c d base ws h Rm hRm i hi K idx hr hA (Or.inr ⟨hK, hmain⟩)
         exact ⟨w, hw, h1⟩
 
+omit [AddCommGroup P] in
 /-- **When the scan fails.** `Err(NoTxPublicKey)` iff the extra has no transaction key sub-field; any other error is the
 error of the amount-opening step of an output that DID match (C08); with no RingCT base or type `Null` and a transaction key
 present the scan never fails. -/
@@ -200,6 +201,7 @@ theorem C07_sender_reported (L : Lawful ops) (decP : Bytes → Option P) (p : Pr
   obtain ⟨w, hw, h1, _, h3, h4, h5, _⟩ := C07_complete L decP p v S a b c d base ws h Rm hRm n hn _ (i, j) hr hA hK
   exact ⟨w, hw, h1, h3, h4, h5⟩
 
+omit [AddCommGroup P] in
 /-- **The position enters only through its varint.** `check_key` at position `i` is a function (`checkKeyAt`, which has no
 access to `i`) of the bytes `encVarint i`; the two hashed messages are `enc D ‖ varint i` and `"view_tag" ‖ enc D ‖ varint i`,
 and the shared scalar used for the amount is the same `Hs(enc D ‖ varint i)`. Nothing depends on the length of the varint:
@@ -214,6 +216,7 @@ theorem C07_position_encoding (ck : Checker P) (out : TxOut) (i : Nat) (K : Byte
   rw [checkKey_eq_at ops ck out i' K, checkKey_eq_at ops ck out i K, he]
   cases checkKeyAt ops ck out (encVarint i) K <;> rfl
 
+omit [AddCommGroup P] in
 /-- **The three entry points are one function.** `Transaction::check_outputs` is `TransactionPrefix::check_outputs` on the
 prefix with `rct_signatures.sig.as_ref()`, which is `check_outputs_with` on `SubKeyChecker::new(pair, major, minor)`; and
 `Transaction::check_outputs_with` is the prefix version with the same base. In the model these are definitional unfoldings
